@@ -312,6 +312,7 @@ func runC09(e *Engine, r *Report) {
 	ruleLastBatchCache(e, r)
 	ruleLogReaderRebase(e, r)
 	ruleLogReaderNoCache(e, r)
+	ruleBatchedDeleteBound(e, r)
 	ruleTanIndexAllNodes(e, r)
 	ruleAppendSetsRange(e, r)
 	ruleTanRemoveAll(e, r)
